@@ -16,7 +16,7 @@ import functools
 import schedula as sh
 from . import Token
 from ..errors import TokenError
-from .parenthesis import _update_n_args
+from .parenthesis import _update_n_args, _check_operand_end
 
 maxcol = 16384
 maxrow = 1048576
@@ -39,6 +39,7 @@ class Operand(Token):
     def ast(self, tokens, stack, builder):
         if tokens and isinstance(tokens[-1], Operand):
             raise TokenError()
+        _check_operand_end(tokens)
         super(Operand, self).ast(tokens, stack, builder)
         builder.append(self)
         _update_n_args(stack)
